@@ -73,6 +73,8 @@ def values_for(name, cls, rng):
     if base == "int":
         return [0, 1, 7, 123456, -1]
     if base == "str":
+        if name in ("summary", "author_description", "project_url", "privacy_policy_url", "terms_of_service_url"):
+            return ["abc", "two words"] + (["first line\nNote: second line\nhttps://example.org/third"] if name in ("summary", "author_description") else ["https://example.org/a/b"])
         return ["abc", "two words", "x_y-z.1", "Caps And 123"]
     if base == "path":
         return ["sub/dir", "./a/../b", "plain", "/abs/olute/p"]
@@ -85,7 +87,7 @@ def values_for(name, cls, rng):
             return [["f"], ["f77", "for"]]
         if name == "fpp_extensions":
             return [["F90"], ["fpp", "F"]]
-        return [["one"], ["one", "two"], ["a b", "c", "d"]]
+        return [["one"], ["one", "two"], ["a b", "c", "d"], ["plain", "key: like", "https://example.org/x"]]
     if base == "list_path":
         return [["p1"], ["p1", "../p2", "/abs/p3"]]
     if base == "dict_str":
@@ -110,6 +112,11 @@ def bad_values_for(cls):
         return [("no_separator_here", '["no_separator_here"]')]
     if base == "dict_filetype":
         return [("onlyone", '["onlyone"]')]
+    # TOML has typed literals: a boolean is not a string / path (metadata has no such distinction: md side skipped)
+    if base in ("str", "path"):
+        return [(None, "true")]
+    if base in ("list_str", "list_path"):
+        return [(None, '["a", false]')]
     return []
 
 
@@ -122,12 +129,13 @@ def md_value_lines(name, cls, v):
     if base == "bool":
         return ["true" if v else "False"]
     if base in ("int", "str", "path"):
-        return [str(v)]
+        return str(v).split("\n")  # a multi-line string is written on continuation lines
     if base in ("list_str", "list_path"):
         return [str(x) for x in v]
     if base == "dict_str":
         sep = fs.OPTION_SEPARATORS.get(name, "=")
-        return [f"{k} {sep} {val}" for k, val in v.items()]
+        # blanks around the separator are optional: both spellings are used
+        return [f"{k}{sep} {val}" if i % 2 else f"{k} {sep} {val}" for i, (k, val) in enumerate(v.items())]
     if base == "dict_filetype":
         return [" ".join(x for x in t if x) for t in v.values()]
     raise ValueError(cls)
@@ -521,6 +529,8 @@ def case_bad_value(item):
     try:
         nruns = 0
         for fmt in ("md", "toml", "config"):
+            if fmt == "md" and md_text is None:
+                continue
             d = os.path.join(root, fmt, "proj")
             os.makedirs(d)
             cli = []
@@ -547,8 +557,37 @@ def case_bad_value(item):
         shutil.rmtree(root, ignore_errors=True)
 
 
+def case_config_over_file(item):
+    """A table option given with --config replaces (not merges with) the table of the project file / fpm.toml."""
+    name, cls = item["name"], item["cls"]
+    filev, cfgv = item["file"], item["config"]
+    root = core.mktemp("vf_c15_")
+    viol = []
+    try:
+        dirs = make_dirs(root, [(name, cls, filev)])
+        n = 0
+        for fmt in ("md", "toml"):
+            d, cli0 = dirs[fmt]
+            r = run_ford_settings(d, d, ["--config", config_render([(name, cls, cfgv)])])
+            n += 1
+            if r["outcome"] != "ok":
+                viol.append({"kind": "valid_options_rejected", "format": fmt, "option": name, "type": cls, "message": r.get("message", "")[:300], "cwd": 0})
+                continue
+            got = r["settings"][name]
+            keys_file = [k for k in (filev if isinstance(filev, dict) else {}) if k not in cfgv]
+            has = (lambda k: k in got) if isinstance(got, dict) else (lambda k: f'"{k}"' in json.dumps(got, default=str))
+            surviving = [k for k in keys_file if has(k)]
+            missing = [k for k in cfgv if not has(k)]
+            if surviving or missing:
+                viol.append({"kind": "precedence", "which": "config_over_file_table", "format": fmt, "option": name, "expected": cfgv, "observed": got,
+                             "entries_of_the_file_survive": surviving, "entries_of_config_missing": missing})
+        return {"viol": viol, "n_runs": n, "contract": dict(CONTRACT), "sample": None}
+    finally:
+        shutil.rmtree(root, ignore_errors=True)
+
+
 def dispatch(item):
-    return {"equiv": case_equivalence, "prec": case_precedence, "unknown": case_unknown_key, "bad": case_bad_value}[item["kind"]](item)
+    return {"equiv": case_equivalence, "prec": case_precedence, "unknown": case_unknown_key, "bad": case_bad_value, "prec_config": case_config_over_file}[item["kind"]](item)
 
 
 # fields that ProjectSettings.__post_init__ normalises (used only to key a known finding)
@@ -605,6 +644,12 @@ def main():
             items.append({"kind": "bad", "name": f.name, "cls": cls, "md": md_text, "toml": toml_lit})
     for name in CLI_FLAGS:
         items.append({"kind": "prec", "name": name})
+    for f in fields:
+        cls = classes[f.name]
+        vals = values_for(f.name, cls, rng)
+        if cls.replace("opt_", "") in ("dict_str", "dict_filetype") and len(vals) >= 2:
+            items.append({"kind": "prec_config", "name": f.name, "cls": cls, "file": vals[1], "config": vals[0]})
+            items.append({"kind": "prec_config", "name": f.name, "cls": cls, "file": vals[0], "config": vals[1]})
     for key, md, toml in [("frobnicate", "1", "1"), ("no_such_option", "some text", '"some text"'), ("grap", "true", "true"),
                           ("src-dir", "x", '"x"')]:
         items.append({"kind": "unknown", "key": key, "md": md, "toml": toml})
